@@ -663,7 +663,9 @@ lzma_index_append(lzma_index *i, const lzma_allocator *allocator,
 			+ lzma_vli_size(uncompressed_size);
 
 	// Check that uncompressed size will not overflow.
-	if (uncompressed_base + uncompressed_size > LZMA_VLI_MAX)
+	if (uncompressed_base + uncompressed_size > LZMA_VLI_MAX
+			|| i->uncompressed_size + uncompressed_size
+				> LZMA_VLI_MAX)
 		return LZMA_DATA_ERROR;
 
 	// Check that the new unpadded sum will not overflow. This is
